@@ -72,6 +72,9 @@ def classify(v):
     return "unlisted:" + v["what"]
 
 
+HANG_S = 120   # one input of at most a few KiB; the slowest observed needs milliseconds
+
+
 def _fuzz_job(st, job):
     variant, seed, start, count, maxlen, stack_kb, payload = job
     res = core.Result("C03", "", 0)
@@ -81,12 +84,32 @@ def _fuzz_job(st, job):
         r = h.json("fuzz", args, payload)
     except core.HarnessDied as e:
         # abort / stack overflow / OOM: find the culprit index with a traced re-run, then regenerate its input
-        p = subprocess.run([st[variant].binary], input=(" ".join(["fuzz"] + [str(a) for a in args] + ["trace", str(len(payload))]) + "\n").encode() + payload,
-                           capture_output=True)
+        req = (" ".join(["fuzz"] + [str(a) for a in args] + ["trace", str(len(payload))]) + "\n").encode() + payload
+        try:
+            p = subprocess.run([st[variant].binary], input=req, capture_output=True, timeout=core.CALL_TIMEOUT)
+            err = p.stderr
+        except subprocess.TimeoutExpired as te:
+            err = te.stderr or b""
         idx = None
-        for line in p.stderr.decode("utf-8", "replace").splitlines():
+        for line in err.decode("utf-8", "replace").splitlines():
             if line.startswith("I "):
                 idx = int(line[2:])
+        if e.rc == "watchdog":
+            # no reply within the watchdog: re-run the one input that was in flight on its own; bounded progress is
+            # demanded with a margin of four orders of magnitude over the slowest input ever observed (milliseconds)
+            if idx is None:
+                res.inconclusive.append("fuzz shard did not answer within the watchdog and the input in flight could not be identified")
+                return res
+            g = core.Harness(st[variant].binary).json("fuzz", [seed, idx, 1, maxlen, "gen"], payload)
+            one = (" ".join(["fuzz", str(seed), str(idx), "1", str(maxlen), "only", str(len(payload))]) + "\n").encode() + payload
+            try:
+                subprocess.run([st[variant].binary], input=one, capture_output=True, timeout=HANG_S)
+                res.inconclusive.append("fuzz shard did not answer within the watchdog, but input %d alone finishes (overloaded machine?)" % idx)
+            except subprocess.TimeoutExpired:
+                res.add("unlisted:hang", {"index": idx, "variant": variant, "seconds": HANG_S, "bytes": len(g["only_input"]) // 2,
+                                          "input": bytes.fromhex(g["only_input"]).decode("utf-8", "replace")[:200]},
+                        {"op": "fuzz", "variant": variant, "args": args, "index": idx, "input_hex": g["only_input"], "mode": g["only_mode"], "offset": g["only_offset"]})
+            return res
         detail = {"rc": e.rc, "index": idx, "variant": variant, "stack_kb": stack_kb}
         wit = {"op": "fuzz", "variant": variant, "args": args, "index": idx, "stack_kb": stack_kb}
         if idx is not None:
